@@ -40,6 +40,7 @@ Agree(o, r) ==
   /\ o.status = r.status
   /\ o.out = r.out
   /\ (o.status = "err" => o.code = r.code /\ o.estmt = r.estmt /\ o.stack = r.stack)
+  /\ (o.status = "reject" /\ o.code # 0 => o.code = r.code /\ o.estmt = r.estmt)
 
 Line(tag, extra) == PrintT(tag \o " " \o ToString(Recs[idx].id) \o " " \o extra)
 
